@@ -77,6 +77,25 @@ def build_source(src):
 
 def run_case(case):
     import nasim
+    if case["type"] == "gen_global":
+        # no seed argument: the caller has seeded NumPy's global generator,
+        # which then is the only source of randomness for the generation and
+        # for the steps taken right afterwards (no re-seeding in between)
+        from nasim.envs import NASimEnv
+        p = dict(case["params"])
+        p.pop("seed", None)
+        np.random.seed(case["np_seed"])
+        sc = nasim.generate_scenario(**p)
+        fp, can = scenario_fingerprint(sc)
+        env = NASimEnv(sc)
+        env.reset()
+        h = hashlib.sha256(fp.encode())
+        for a in range(min(25, env.action_space.n)):
+            o, r, term, trunc, info = env.step(a)
+            h.update(np.asarray(o).tobytes())
+            h.update(repr((float(r), bool(info["success"]))).encode())
+        return {"fp": h.hexdigest()[:20],
+                "branch": branch_stats(can, p.get("restrictiveness", 5))}
     if case["type"] == "gen":
         p = dict(case["params"])
         if isinstance(p.get("address_space_bounds"), list):
@@ -269,6 +288,14 @@ def run(prop, tier, seed, shard, nshards):
         rng = corpus.case_rng(seed, prop, ctype, cid)
         if ctype == "gen":
             cases.append({"type": "gen", "params": gen_params(rng, tier)})
+            if cid % 5 == 0:
+                # the same parameters without a seed argument, after the
+                # global generator was seeded
+                meta.append((ctype, cid))
+                ctype = "gen_global"
+                cases.append({"type": "gen_global",
+                              "params": cases[-1]["params"],
+                              "np_seed": rng.randrange(2 ** 31)})
         elif ctype == "bench":
             cases.append({"type": "bench", "name": cid[0], "seed": cid[1]})
         else:
@@ -386,7 +413,7 @@ def run(prop, tier, seed, shard, nshards):
                     "trajectory_depends_on_previous_environment",
                     {"alone": [b.get("fp") for b in base],
                      "after_twin": fps}, wit)
-        if ctype in ("gen", "bench"):
+        if ctype in ("gen", "bench", "gen_global"):
             if res[0]["branch"] > 0:
                 acc.nontrivial("gen", c.get("params") and
                                repr(sorted(c["params"].items(),
